@@ -170,6 +170,17 @@ func init() {
 			for _, sc := range FamilySeq(tier) {
 				items = append(items, explore("C02", sc, b, true))
 			}
+			// the same grids under the second internal scheduling policy (a woken goroutine runs before its waker goes on):
+			// the limiter, the failure counter and the launch loop hand over in the opposite order
+			for _, sc := range wakeTwins(FamilyConc(tier)) {
+				if strings.HasPrefix(sc.Name, "conc-overrun-late") {
+					continue
+				}
+				items = append(items, explore("C02", sc, b, true))
+			}
+			for _, sc := range wakeTwins(FamilySeq(tier)) {
+				items = append(items, explore("C02", sc, b, true))
+			}
 			for _, sc := range FamilySharp(tier) {
 				items = append(items, explore("C02", sc, b, true))
 			}
